@@ -31,7 +31,9 @@ Pool == [ A |-> << M("A_f", "f", FALSE), M("A_ff", "ff", FALSE) >>,
           D |-> << M("D_q", "f", FALSE) >>,                                                  \* q's in-message name collides with A.f
           E |-> << M("E_k", "f.g", FALSE), M("E_op", "h2", FALSE) >>,                        \* dotted name, custom operation name
           G |-> << M("G_f", "f", TRUE) >>,                                                   \* a second auxiliary f
-          H |-> << M("H_p", "f", FALSE) >> ]    \* p's in-message is named f too, but lives in ANOTHER namespace: only the
+          H |-> << M("H_p", "f", FALSE) >>,
+          \* two methods of ONE service under one name: r's in-message (in another namespace) is named like its sibling k9
+          I |-> << M("I_r", "k9", FALSE), M("I_k9", "k9", FALSE) >> ]    \* p's in-message is named f too, but lives in ANOTHER namespace: only the
                                                 \* routing-table check (not the class-name check) can refuse it
 Services == DOMAIN Pool
 Names == UNION {{Pool[s][i].name : i \in 1..Len(Pool[s])} : s \in Services}
